@@ -930,11 +930,12 @@ theorem susIndices_count (O : Ops F) (hcast : ∀ k : Nat, O.ofNat k = (k : F)) 
 section iwo
 variable (O : Ops F) (hcast : ∀ k : Nat, O.ofNat k = (k : F))
   (hmono : ∀ x y : F, x ≤ y → O.floorNat x ≤ O.floorNat y) (hnat : ∀ k : Nat, O.floorNat (k : F) = k)
-include hcast hmono hnat
+  (hnan : ∀ x : F, O.isNaN x = false)
+include hcast hmono hnat hnan
 
 theorem iwoCount_antitone (a b : Nat) (worst best o o' : F) (hbw : best ≤ worst) (h : o ≤ o') :
     iwoCount O a b worst best o' ≤ iwoCount O a b worst best o := by
-  simp only [iwoCount]
+  simp only [iwoCount, hnan, Bool.false_or]
   split
   · exact le_refl _
   · next hne =>
@@ -951,7 +952,7 @@ theorem iwoCount_worst (a b : Nat) (worst best : F) (hlt : best < worst) :
     cases hc : eqF best worst with
     | false => rfl
     | true => exact absurd ((eqF_iff _ _).mp hc) (ne_of_lt hlt)
-  simp only [iwoCount, hne, Bool.false_eq_true, if_false, sub_self, zero_div, zero_mul]
+  simp only [iwoCount, hnan, Bool.false_or, hne, Bool.false_eq_true, if_false, sub_self, zero_div, zero_mul]
   have := hnat 0
   simp only [Nat.cast_zero] at this
   rw [this]; rfl
@@ -963,7 +964,7 @@ theorem iwoCount_best (a b : Nat) (hab : a ≤ b) (worst best : F) (hlt : best <
     | false => rfl
     | true => exact absurd ((eqF_iff _ _).mp hc) (ne_of_lt hlt)
   have hd : best - worst ≠ 0 := by intro hc; linarith
-  simp only [iwoCount, hne, Bool.false_eq_true, if_false, div_self hd, one_mul, hcast, hnat]
+  simp only [iwoCount, hnan, Bool.false_or, hne, Bool.false_eq_true, if_false, div_self hd, one_mul, hcast, hnat]
   omega
 
 theorem iwoCount_bounds (a b : Nat) (hab : a ≤ b) (worst best o : F) (hbw : best ≤ worst)
@@ -972,7 +973,7 @@ theorem iwoCount_bounds (a b : Nat) (hab : a ≤ b) (worst best o : F) (hbw : be
   refine ⟨by simp [iwoCount], ?_⟩
   by_cases heq : best = worst
   · have hc : eqF best worst = true := (eqF_iff _ _).mpr heq
-    simp only [iwoCount, hc, if_true, hcast]
+    simp only [iwoCount, hnan, Bool.false_or, hc, if_true, hcast]
     have h1 : ((b - a : Nat) : F) / (1 + 1) ≤ ((b - a : Nat) : F) := by
       have : (0 : F) ≤ ((b - a : Nat) : F) := Nat.cast_nonneg _
       linarith [half_le_self this, show ((b - a : Nat) : F) / (1 + 1) = ((b - a : Nat) : F) / 2 by norm_num]
@@ -980,8 +981,8 @@ theorem iwoCount_bounds (a b : Nat) (hab : a ≤ b) (worst best o : F) (hbw : be
     rw [hnat] at this
     omega
   · have hlt : best < worst := lt_of_le_of_ne hbw heq
-    have h1 := iwoCount_antitone O hcast hmono hnat a b worst best best o hbw ho1
-    rw [iwoCount_best O hcast hmono hnat a b hab worst best hlt] at h1
+    have h1 := iwoCount_antitone O hcast hmono hnat hnan a b worst best best o hbw ho1
+    rw [iwoCount_best O hcast hmono hnat hnan a b hab worst best hlt] at h1
     exact h1
 
 end iwo
